@@ -1,6 +1,6 @@
 (* C14 — Routing table converges to the latest valid CLUSTER NODES description.
    Only theorem statements; proofs in Proofs/ClusterProofs.v. *)
-From RcProxy Require Import Base.Bytes Base.Dec Gen.Generated Model.RespBuf Model.Cluster Proofs.ClusterProofs.
+From RcProxy Require Import Base.Bytes Base.Dec Gen.Generated Model.RespBuf Model.Cluster Proofs.ClusterProofs Model.Info Proofs.InfoProofs.
 Open Scope N_scope.
 
 (* the refresh loop survives EVERY probe reply, for every history: it never ends and never panics *)
@@ -114,3 +114,27 @@ Example C14_witnesses :
    let s x := {| cn_name := bs "s"; cn_addr := bs "c:1"; cn_slave := true; cn_masterid := x; cn_slots := [] |} in
    beqb (fingerprint [m1; m2; s (bs "m1")]) (fingerprint [m1; m2; s (bs "m2")]) = false).
 Proof. cbv zeta. repeat split; vm_compute; reflexivity. Qed.
+
+(* the INFO probe of a node not yet known (loading / master link, which decide whether a replica is
+   adopted): on a text made of key:value fields the reader computes the exact-key lookup - the last
+   field whose key IS loading / master_link_status / redis_version; fields with other keys
+   (async_loading, loading_start_time, ...) never change the three values *)
+Theorem C14_info_exact_keys : forall fields, Forall wf_field fields ->
+  info_of_lines (map field_line fields) = spec_info (map field_line fields).
+Proof. exact info_exact_keys. Qed.
+Print Assumptions C14_info_exact_keys.
+
+Theorem C14_info_other_field_irrelevant : forall i k v, ~ In 58 k ->
+  k <> bs "loading" -> k <> bs "master_link_status" -> k <> bs "redis_version" ->
+  info_line i (k ++ 58 :: v) = i.
+Proof. exact other_field_irrelevant. Qed.
+Print Assumptions C14_info_other_field_irrelevant.
+
+Example C14_info_witness :
+  let text := bs "# Server" ++ [13; 10] ++ bs "redis_version:7.0.11" ++ [13; 10] ++ bs "loading:0" ++ [13; 10]
+              ++ bs "async_loading:0" ++ [13; 10] ++ bs "master_link_status:up" ++ [13; 10] in
+  match parse_info text with
+  | Some i => in_loading i = false /\ in_link i = bs "up" /\ in_version i = bs "7.0.11" /\ info_usable_replica i = true
+  | None => False
+  end.
+Proof. vm_compute. repeat split. Qed.
